@@ -1,2 +1,243 @@
-/- Property theorems for C03 (placeholder until the proofs land). -/
-import Avt.Spec.C03
+/-
+  Avt.Props.C03 — property C03: the parser follows the DEC/ANSI state machine; dispatch is exact and
+  memoryless.  (Also `C19_esc_aborts`, used by C19.)
+
+  All statements are about `Parser.feed`, which *interprets* the tables regenerated from
+  /repo/src/parser.rs (`Avt.Gen`), against the hand-written reference of `Avt.Spec.C03`
+  (`williams`, `refDispatchCsi`, `refDispatchEsc`, `refExecute`, `refStep`, `refRun`).
+  Quantifiers: every state, every register file satisfying the invariant `PInv`, every code point
+  `c < 0x110000` (all 1,112,064 scalar values and the surrogates); `C03_table` holds for every `c : Nat`.
+  The bound is needed in one place only: the translator renders Rust's `_` pattern in `esc_dispatch`
+  as the interval `0 ..= 0x10FFFF`.
+-/
+import Avt.Lemmas.ParserSeq
+
+namespace Avt.Props.C03
+open Avt Avt.Spec.C03 Avt.Spec.C20 Avt.ParserTable Avt.ParserSem Avt.ParserSeq
+
+/-! ### 1. the transition table -/
+
+/-- **Table equality** (14 states × all code points): the matching arm of the generated `match` in
+    `Parser::feed` performs the action kind and the transition of Williams' diagram. -/
+theorem C03_table (st : PState) (c : Nat) : kindAndNext st c = some (williams st c) := table_eq st c
+
+/-! ### 2. the reference parser, step by step and on whole strings -/
+
+/-- One character: `feed` does not panic, emits exactly the reference parser's function, leaves
+    registers that encode the reference parser's abstract state (state, last intermediate, parameters
+    as written), and re-establishes the register invariant. -/
+theorem C03_step {p : Parser} (hp : PInv p = true) (c : Nat) (hc : c < 0x110000) :
+    ∃ p', p.feed c = some (p', (refStep (abs p) c).2) ∧ abs p' = (refStep (abs p) c).1 ∧ PInv p' = true :=
+  feed_refStep hp c hc
+
+/-- Any string: the functions emitted are the reference parser's, function by function. -/
+theorem C03_run {p : Parser} (hp : PInv p = true) (s : List Nat) (hs : ∀ c ∈ s, c < 0x110000) :
+    ∃ q, run p s = some (q, (refRun (abs p) s).2) ∧ abs q = (refRun (abs p) s).1 ∧ PInv q = true :=
+  run_refRun hp s hs
+
+/-! ### 3. the register invariant; no panic in the parser (C01's parser half) -/
+
+theorem PInv_new : PInv Parser.new = true := by decide
+
+theorem PInv_feed {p p' : Parser} {f : Option Function} {c : Nat} (hp : PInv p = true) (hc : c < 0x110000)
+    (h : p.feed c = some (p', f)) : PInv p' = true := by
+  obtain ⟨q, h1, -, h3⟩ := feed_refStep hp c hc
+  rw [h1] at h
+  cases h
+  exact h3
+
+theorem feed_total {p : Parser} (hp : PInv p = true) (c : Nat) (hc : c < 0x110000) : (p.feed c).isSome = true := by
+  obtain ⟨q, h1, -, -⟩ := feed_refStep hp c hc
+  rw [h1]; rfl
+
+theorem run_total {p : Parser} (hp : PInv p = true) (s : List Nat) (hs : ∀ c ∈ s, c < 0x110000) :
+    (run p s).isSome = true := by
+  obtain ⟨q, h1, -, -⟩ := run_refRun hp s hs
+  rw [h1]; rfl
+
+/-! ### 4. `ESC Fe` = C1 -/
+
+/-- A 7-bit `ESC @` … `ESC _` acts exactly like its 8-bit C1 counterpart, from every state and every
+    register file: ESC itself emits nothing; the second character emits the same function as the C1
+    control; both end in the same state with registers equal up to dead ones. -/
+theorem C03_fe_folding {p : Parser} (hp : PInv p = true) (c : Nat) (h1 : 0x40 ≤ c) (h2 : c ≤ 0x5F) :
+    ∃ p1 p2 p3 f, p.feed 0x1B = some (p1, none) ∧ p1.feed c = some (p2, f) ∧ p.feed (c + 0x40) = some (p3, f)
+      ∧ p2.state = p3.state ∧ (abs p2).norm = (abs p3).norm := by
+  obtain ⟨p1, a1, a2, a3⟩ := feed_refStep hp 0x1B (by decide)
+  obtain ⟨p2, b1, b2, -⟩ := feed_refStep a3 c (by omega)
+  obtain ⟨p3, c1, c2, -⟩ := feed_refStep hp (c + 0x40) (by omega)
+  obtain ⟨f1, f2, f3, f4⟩ := fe_fold (abs p) c h1 h2
+  rw [f1] at a1
+  rw [a2, f2] at b1
+  rw [a2] at b2
+  refine ⟨p1, p2, p3, _, a1, b1, c1, ?_, ?_⟩
+  · have e2 : p2.state = (abs p2).state := rfl
+    have e3 : p3.state = (abs p3).state := rfl
+    rw [e2, e3, b2, c2, f3]
+  · rw [b2, c2, f4]
+
+/-! ### 5. `clear` and memorylessness -/
+
+/-- under the invariant `clear` leaves every register zero (the all-default register file) -/
+theorem C03_clear_zero {p p' : Parser} (hp : PInv p = true) (h : p.clear = some p') :
+    p' = { state := p.state } ∧ p'.curParam = 0 ∧ p'.intermediate = none
+      ∧ p'.params = List.replicate 32 { curPart := 0, parts := [0, 0, 0, 0, 0, 0] } := by
+  rw [clear_eq hp] at h
+  cases h
+  exact ⟨rfl, rfl, rfl, rfl⟩
+
+/-- **Memoryless, strongest form**: after a sequence introducer that is an "anywhere" transition
+    (ESC — hence also `ESC [`, `ESC P` — or the 8-bit CSI, DCS) the *entire* future of the parser —
+    every function and the final register file — depends only on the characters, not on the state or
+    the registers earlier input left behind. -/
+theorem C03_memoryless_intro {p q : Parser} (hp : PInv p = true) (hq : PInv q = true) (c : Nat)
+    (hc : c = 0x1B ∨ c = 0x9B ∨ c = 0x90) (rest : List Nat) :
+    run p (c :: rest) = run q (c :: rest) := by
+  have key : ∀ r : Parser, PInv r = true → ∃ s, r.feed c = some ({ state := s }, none)
+      ∧ s = (if c = 0x1B then .Escape else if c = 0x9B then .CsiEntry else .DcsEntry) := by
+    intro r hr
+    rw [feed_eq_sem]
+    have hw : williams r.state c = (.clear, if c = 0x1B then .Escape else if c = 0x9B then .CsiEntry else .DcsEntry) := by
+      rcases hc with rfl | rfl | rfl <;> cases r.state <;> decide
+    rw [hw]
+    simp only [sem, clear_eq hr, Option.map_some]
+    exact ⟨_, rfl, rfl⟩
+  obtain ⟨s1, e1, rfl⟩ := key p hp
+  obtain ⟨s2, e2, rfl⟩ := key q hq
+  simp only [run, e1, e2]
+
+/-- **Memoryless, general form**: two register files that agree up to dead registers (`AState.norm`
+    erases the intermediate and the parameters in the states where nothing can read them before the
+    next `clear`: Ground, the string states, CsiIgnore) emit the same functions on every input and
+    agree up to dead registers afterwards. -/
+theorem C03_memoryless {p q : Parser} (hp : PInv p = true) (hq : PInv q = true)
+    (h : (abs p).norm = (abs q).norm) (s : List Nat) (hs : ∀ c ∈ s, c < 0x110000) :
+    ∃ p' q' fs, run p s = some (p', fs) ∧ run q s = some (q', fs) ∧ (abs p').norm = (abs q').norm := by
+  obtain ⟨p', a1, a2, -⟩ := run_refRun hp s hs
+  obtain ⟨q', b1, b2, -⟩ := run_refRun hq s hs
+  have := refRun_norm h s
+  refine ⟨p', q', _, a1, ?_, ?_⟩
+  · rw [b1, this.1]
+  · rw [a2, b2, this.2]
+
+/-- in particular: from Ground, whatever earlier sequences left in the registers, the parser emits
+    what a fresh parser emits -/
+theorem C03_memoryless_ground {p : Parser} (hp : PInv p = true) (hg : p.state = .Ground) (s : List Nat)
+    (hs : ∀ c ∈ s, c < 0x110000) :
+    ∃ p' q' fs, run p s = some (p', fs) ∧ run Parser.new s = some (q', fs) ∧ p'.state = q'.state := by
+  have h : (abs p).norm = (abs Parser.new).norm := by
+    rw [norm_of_dead (a := abs p) (by show dead p.state = true; rw [hg]; rfl)]
+    show _ = AState.norm { state := .Ground, interm := none, ps := [[0]] }
+    rw [norm_of_dead (a := { state := .Ground, interm := none, ps := [[0]] }) rfl]
+    show ({ state := p.state } : AState) = _
+    rw [hg]
+  obtain ⟨p', q', fs, h1, h2, h3⟩ := C03_memoryless hp PInv_new h s hs
+  refine ⟨p', q', fs, h1, h2, ?_⟩
+  have := congrArg AState.state h3
+  rwa [norm_state, norm_state] at this
+
+/-! ### 6. dispatch exactness -/
+
+/-- **Parameters as written (body half)**: a parameter string (digits, `;`, `:`) fed in CsiParam emits
+    nothing and leaves registers that encode exactly the text-level reading `stepW` of the string. -/
+theorem C03_params_spec {p : Parser} (hp : PInv p = true) (hs : p.state = .CsiParam) (body : List Nat)
+    (hb : body.all (inR 0x30 0x3B) = true) :
+    ∃ q, run p body = some (q, []) ∧ q.state = .CsiParam ∧ q.intermediate = p.intermediate
+      ∧ written q = body.foldl stepW (written p) ∧ PInv q = true := by
+  obtain ⟨q, h1, h2, h3⟩ := run_refRun hp body (all_inR_lt hb (by decide))
+  rw [csi_params_run body (abs p) hs hb] at h1 h2
+  refine ⟨q, h1, ?_, ?_, ?_, h3⟩
+  · exact (congrArg AState.state h2).trans hs
+  · exact congrArg AState.interm h2
+  · exact congrArg AState.ps h2
+
+/-- a plain number is read in decimal modulo 65536: values up to 65535 arrive exactly -/
+theorem C03_params_decimal (ds : List Nat) (hd : ds.all (inR 0x30 0x39) = true) :
+    parseParams ds = [[decVal ds % 65536]] := parseParams_digits ds hd
+
+/-- at most 32 parameters, at most 6 sub-parts each, every value below 65536 -/
+theorem C03_params_shape (body : List Nat) :
+    1 ≤ (parseParams body).length ∧ (parseParams body).length ≤ 32
+      ∧ ∀ q ∈ parseParams body, 1 ≤ q.length ∧ q.length ≤ 6 ∧ ∀ v ∈ q, v < 65536 :=
+  shapeOK_parseParams body
+
+/-- **Dispatch table (table half)**: for every register file satisfying the invariant, every
+    intermediate / private marker and every final character, the generated `csi_dispatch` returns the
+    hand-written reference function of the parameters as written — 0 for parameters that were not
+    written, whatever earlier sequences left in those registers. -/
+theorem C03_dispatch_csi {p : Parser} (hp : PInv p = true) (final : Nat) :
+    p.csiDispatch final = some (refDispatchCsi p.intermediate final (written p)) := csiDispatch_eq hp final
+
+theorem C03_dispatch_esc (p : Parser) (final : Nat) (hc : final < 0x110000) (hs : p.state = .Ground) :
+    p.escDispatch final = some (p, refDispatchEsc p.intermediate final) := escDispatch_eq p final hc hs
+
+theorem C03_execute (c : Nat) : Parser.execute c = refExecute c := execute_eq c
+
+/-- **A whole CSI sequence, from anywhere**: introducer (7- or 8-bit), optional private marker,
+    parameter string, intermediates, final.  Whatever the parser was doing and whatever its registers
+    held, it emits exactly the reference function of (last intermediate or marker, final, parameters
+    read from the text) — nothing if the table selects nothing — and ends in Ground. -/
+theorem C03_csi_sequence {p : Parser} (hp : PInv p = true) (intro : List Nat)
+    (hi : intro = [0x1B, 0x5B] ∨ intro = [0x9B]) (t : CsiText) (ht : t.wf = true) :
+    ∃ q, run p (intro ++ t.body) = some (q, (refDispatchCsi t.eff t.final (parseParams t.params)).toList)
+      ∧ q.state = .Ground ∧ PInv q = true := by
+  have hlt : ∀ c ∈ intro ++ t.body, c < 0x110000 := by
+    intro c hc
+    rcases List.mem_append.1 hc with hc | hc
+    · rcases hi with rfl | rfl <;> simp at hc <;> omega
+    · exact csi_body_lt ht c hc
+  obtain ⟨q, h1, h2, h3⟩ := run_refRun hp _ hlt
+  rw [refRun_append, csi_intro_run intro hi, csi_run t ht] at h1 h2
+  exact ⟨q, h1, congrArg AState.state h2, h3⟩
+
+/-- **A whole ESC sequence, from anywhere**: ESC, intermediates, final (not one of the introducers
+    `P X [ ] ^ _` directly after ESC). -/
+theorem C03_esc_sequence {p : Parser} (hp : PInv p = true) (t : EscText) (ht : t.wf = true) :
+    ∃ q, run p (0x1B :: t.body) = some (q, (refDispatchEsc t.ints.getLast? t.final).toList)
+      ∧ q.state = .Ground ∧ PInv q = true := by
+  have hlt : ∀ c ∈ 0x1B :: t.body, c < 0x110000 := by
+    intro c hc
+    rcases List.mem_cons.1 hc with rfl | hc
+    · decide
+    · exact esc_body_lt ht c hc
+  obtain ⟨q, h1, h2, h3⟩ := run_refRun hp _ hlt
+  simp only [refRun, refStep_esc, esc_run t ht] at h1 h2
+  exact ⟨q, h1, congrArg AState.state h2, h3⟩
+
+/-! ### 7. ESC always aborts; `ESC c` is RIS from every state (for C19) -/
+
+/-- From every parser state and every register file: ESC emits nothing, the following `c` emits
+    exactly `Ris`, and the parser is in Ground. -/
+theorem C19_esc_aborts {p : Parser} (hp : PInv p = true) :
+    ∃ p1 p2, p.feed 0x1B = some (p1, none) ∧ p1.feed 0x63 = some (p2, some .ris) ∧ p2.state = .Ground := by
+  obtain ⟨p1, a1, a2, a3⟩ := feed_refStep hp 0x1B (by decide)
+  obtain ⟨p2, b1, b2, -⟩ := feed_refStep a3 0x63 (by decide)
+  rw [refStep_esc] at a1 a2
+  rw [a2] at b1 b2
+  refine ⟨p1, p2, a1, b1, ?_⟩
+  exact congrArg AState.state b2
+
+/-! ### the hypotheses are satisfiable; concrete instances -/
+
+/-- a register file with stale contents in Ground satisfies the invariant (left by `CSI ? 12 ; 34 : 5 CAN`) -/
+example : ∃ p, run Parser.new [0x9B, 0x3F, 0x31, 0x32, 0x3B, 0x33, 0x34, 0x3A, 0x35, 0x18] = some (p, [])
+    ∧ PInv p = true ∧ p.state = .Ground ∧ p.curParam = 1 ∧ p.intermediate = some 0x3F := by
+  refine ⟨_, rfl, ?_⟩
+  decide
+
+/-- `CSI 3 8 : 2 : : 1 : 2 : 3 ; 4 m` is a well-formed CSI text; from a fresh parser it emits one SGR -/
+example : (⟨none, [0x33, 0x38, 0x3A, 0x32, 0x3A, 0x3A, 0x31, 0x3A, 0x32, 0x3A, 0x33, 0x3B, 0x34], [], 0x6D⟩ : CsiText).wf = true := by decide
+
+example : refDispatchCsi none 0x6D (parseParams [0x33, 0x38, 0x3A, 0x32, 0x3A, 0x3A, 0x31, 0x3A, 0x32, 0x3A, 0x33, 0x3B, 0x34])
+    = some (.sgr [.setFg (.rgb 1 2 3), .setUnderline]) := by decide
+
+example : parseParams [0x31, 0x3B, 0x3B, 0x32, 0x3A, 0x33] = [[1], [0], [2, 3]] := by decide
+
+example : williams .DcsPassthrough 0x9C = (.ignore, .Ground) := by decide
+example : williams .OscString 0x18 = (.execute, .Ground) := by decide
+example : williams .CsiParam 0x7F = (.ignore, .CsiParam) := by decide
+example : williams .CsiParam 0x3A = (.param, .CsiParam) := by decide
+example : williams .CsiEntry 0x3A = (.ignore, .CsiIgnore) := by decide
+example : williams .Ground 0x4E2D = (.print, .Ground) := by decide
+
+end Avt.Props.C03
